@@ -55,6 +55,16 @@ inductive Val where
   | dict (kvs : List (Lit × Val))                -- exact dict
   | lmap (kvs : List (Lit × Val))                -- Mapping subclass whose `.get` logs the key
   | obj (c : Nat) (attrs : List (Nat × Option Val))  -- `none`: property that raises ValueError
+  /- dynamic class kinds that take the generic (non-exact) paths of the helpers -/
+  | dsub (kvs : List (Lit × Val))                -- dict subclass, `get` not overridden
+  | dget (kvs : List (Lit × Val)) (view : List (Lit × Val))
+      -- dict subclass overriding `get`: logs the key and answers from `view` (hidden / aliased
+      -- entries); `kvs` is the hash table seen by `len`, `dict(subject)` and the `PyDict_*` API
+  | useq (kind : Nat) (xs : List Val)
+      -- 0 list subclass / 1 tuple subclass whose coherent `__len__/__getitem__/__iter__`
+      -- overrides present `xs`; 2 deque; 3 array.array; 4 range
+  | ostr (kind : Nat) (k : Nat)
+      -- 0 str subclass, 1 bytes subclass, 2 bytearray, 3 bytearray subclass: never a sequence
   deriving Inhabited
 
 inductive Ev where
@@ -79,6 +89,7 @@ def eqv (v : Val) (l : Lit) (lg : Log) : Bool × Log :=
   match v with
   | .lit a => (a.pyEq l, lg)
   | .eobj tag n => ((match l.asInt? with | some m => n == m | none => false), lg ++ [.eq tag])
+  | .ostr kind k => (kind == 0 && l == .str k, lg)
   | _ => (false, lg)
 
 /-- `subject is literal` -/
@@ -90,15 +101,25 @@ def isv (v : Val) (l : Lit) : Bool :=
 /-- `Py_TPFLAGS_SEQUENCE` and the items -/
 def seqItems : Val → Option (List Val)
   | .list xs => some xs | .tuple xs => some xs | .cseq xs => some xs
+  | .useq _ xs => some xs
   | _ => none
 
 /-- `Py_TPFLAGS_MAPPING` and the items -/
 def mapItems : Val → Option (List (Lit × Val))
   | .dict kvs => some kvs | .lmap kvs => some kvs
+  | .dsub kvs => some kvs | .dget kvs _ => some kvs
   | _ => none
 
 def logsGet : Val → Bool
-  | .lmap _ => true | _ => false
+  | .lmap _ => true | .dget _ _ => true | _ => false
+
+/-- what the subject's own two-argument `get` answers from.  For an exact dict this is the hash
+    table itself (so `PyDict_GetItemRef` / `PyDict_Contains` are equivalent to `get`); for every
+    other mapping the helpers must call `get` (`__Pyx_MatchCase_Mapping_ExtractNonDict`). -/
+def mapView : Val → List (Lit × Val)
+  | .dict kvs => kvs | .lmap kvs => kvs | .dsub kvs => kvs
+  | .dget _ view => view
+  | _ => []
 
 def lookupKey (kvs : List (Lit × Val)) (k : Lit) : Option Val :=
   (kvs.find? (fun kv => kv.1.pyEq k)).map (·.2)
@@ -142,10 +163,10 @@ def isInst (T : Tab) (v : Val) : Cls → Bool
   | .user c => (match v with | .obj c' _ => c' == c || (T.supers c').contains c | _ => false)
   | .bint => (match v with | .lit (.int _) => true | .lit (.bool _) => true | _ => false)
   | .bbool => (match v with | .lit (.bool _) => true | _ => false)
-  | .bstr => (match v with | .lit (.str _) => true | _ => false)
-  | .blist => (match v with | .list _ => true | _ => false)
-  | .btuple => (match v with | .tuple _ => true | _ => false)
-  | .bdict => (match v with | .dict _ => true | _ => false)
+  | .bstr => (match v with | .lit (.str _) => true | .ostr 0 _ => true | _ => false)
+  | .blist => (match v with | .list _ => true | .useq 0 _ => true | _ => false)
+  | .btuple => (match v with | .tuple _ => true | .useq 1 _ => true | _ => false)
+  | .bdict => (match v with | .dict _ => true | .dsub _ => true | .dget _ _ => true | _ => false)
   | .nontype => false
 
 inductive Attr where
